@@ -2,6 +2,7 @@
    The model writes the checked_add explicitly; nothing is computed modulo 2^64. *)
 Require Import Enr.Bytes Enr.Consts Enr.Rlp Enr.SortedMap Enr.Keccak Enr.Record Enr.Update.
 Require Import EnrProofs.Thm_Update EnrProofs.RlpLemmas EnrProofs.Thm_Decode.
+Require Import Enr.Spec EnrProofs.RefineLemmas EnrProofs.Thm_Refine EnrProofs.Thm_Cause.
 Open Scope N_scope.
 
 (* every successful content update: exactly +1, however many fields it touches; set_seq: exactly n *)
@@ -37,3 +38,13 @@ Theorem seq_decoded_in_range : forall (c : crypto) kt b r rest,
   bytes_ok b -> decode c kt b = Ok (r, rest) -> seq r < 2 ^ 64.
 Proof. exact Thm_Decode.decode_seq_range. Qed.
 Print Assumptions seq_decoded_in_range.
+
+(* at 2^64-1 the error reported is the sequence-number error (no earlier cause applying), and the record stays *)
+Theorem step_at_max_reports_seq : forall (c : crypto) kt r o k sg,
+  seq r = U64_MAX -> is_set_seq o = false ->
+  check_list c (checked_inserts o) = Ok tt ->
+  check_keyed_by c kt (spec_pairs o k (content r)) k = Ok tt ->
+  (pre_check o = true -> size (cand (seq r) (nid r) (spec_pairs o k (content r)) (sig r)) <= MAX_ENR_SIZE) ->
+  step c kt r o k sg = (Err ESequenceNumberTooHigh, r).
+Proof. exact Thm_Cause.step_at_max_reports_seq. Qed.
+Print Assumptions step_at_max_reports_seq.
